@@ -419,7 +419,9 @@ def format_int(value):
                 if isinstance(h, int):
                     _all_hashes.add(h)
 
-    if value <= 10000 or value in _all_hashes:
+    # '$' literals are 64 bit integers; from 2**53 on the value is a rounded
+    # double anyway and the decimal spelling is always accepted
+    if value <= 10000 or value in _all_hashes or value >= 2**53:
         return str(value)
 
     return f"${value:X}"
